@@ -2,7 +2,7 @@
 META = {
     "level": 'exploration',
     "technique": 'differential testing of every real derivation function and of the client/upload/mutable call chains against a hashlib-only reimplementation written from the specification text, plus the 4 published lease vectors',
-    "text": 'Executes the real hashutil functions (tagged hashes, storage index, SSK chain, write enablers, lease renewal/cancel chain, convergence key, dirnode child-cap key/salt, block/UEB/plaintext/crypttext hashers, server permutation), the uri.py cap classes, derive_mutable_keys, SecretHolder/_Client.init_secrets, Tahoe2ServerSelector.get_shareholders, immutable Checker(add_lease), MutableFileNode.get_write_enabler/get_renewal_secret/get_cancel_secret and `tahoe debug dump-cap` on seeded random inputs of the documented lengths and on edge lengths; every output is compared byte-for-byte with a reference that uses only hashlib and tag strings re-typed from docs/specifications (lease.rst, file-encoding.rst, derive_renewal_secret.py) and the hashutil.py tag table. Servers in the chain cases have tubid != permutation seed != server id, so a wrong seed choice is visible. Sampled, not exhaustive.',
+    "text": 'Executes the real hashutil functions (tagged hashes, storage index, SSK chain, write enablers, lease renewal/cancel chain, convergence key, dirnode child-cap key/salt, block/UEB/plaintext/crypttext hashers, server permutation), the uri.py cap classes, derive_mutable_keys, SecretHolder/_Client.init_secrets, Tahoe2ServerSelector.get_shareholders, immutable Checker(add_lease), MutableFileNode.get_write_enabler/get_renewal_secret/get_cancel_secret and `tahoe debug dump-cap` on seeded random inputs of the documented lengths and on edge lengths; every output is compared byte-for-byte with a reference that uses only hashlib and tag strings re-typed from docs/specifications (lease.rst, file-encoding.rst, derive_renewal_secret.py) and the hashutil.py tag table. Servers in the chain cases have tubid != permutation seed != server id, so a wrong seed choice is visible. Directory child-cap keys are additionally decided on stored bytes: SDMF and MDMF directories are created on an in-process grid through create_dirnode (with and without initial_children), create_subdirectory(initial_children), set_node/set_uri/set_children/set_nodes and a later re-pack; the directory file is downloaded by a fresh client, split into netstrings by the check and every rwcap slot is opened with a hashlib-derived key from the directory write key; it must be the child write cap. Sampled, not exhaustive.',
     "note": 'Trusts hashlib, the 10-line reference in vf/models.py (self-checked against the 4 published vectors before any verdict), and `cryptography` AES-CTR for opening dirnode/privkey ciphertexts. For tags that the prose specification does not spell out (SSK chain, dirnode, segment hashers) the reference pins the strings of the hashutil.py tag table as of the pinned tree: the check then proves stability ("any change would make existing files unreachable"), not agreement with an external document. The wire-level comparison on a running grid is wire_compare(), to be driven by the lead.',
 }
 LEVEL = "exploration"
@@ -895,3 +895,6 @@ def run(ck):
 #  7. hashutil._convergence_hasher_tag: parameters "%d,%d,%d" not wrapped in a netstring               -> caught
 #  8. storage_client.get_foolscap_write_enabler_seed: permutation_seed instead of tubid              -> caught
 #  9. storage_client._FoolscapStorage.lease_seed: permutation_seed instead of tubid                   -> caught
+# 10. seeded/C17-4 and its twins in selftest/breaks_c17.py (mkdir-with-children packs under the READ key / storage index;
+#     DirectoryNode._pack_contents under the READ key; salt and key swapped at the call site)            -> caught by the
+#     stored-bytes directory workload (vf/checks/_c17_dir.py), keys dir-child-capkey-not-from-writekey:<creation path>
